@@ -2,7 +2,7 @@
 // in-process NodeHosts, fault-injecting network) checked for linearizability.
 //
 //	gen: runs the clusters and writes one case per history:
-//	     <id> HIST log=<write ids in apply order> final=<k:v:ver,...|?> smcheck=<ok|msg> | ev ; ev ; ...
+//	     <id> HIST log=<id:key:val of the applied entries, in apply order> final=<k:v:ver,...|?> smcheck=<ok|msg> nev=<#events> | ev ; ev ; ...
 //	     ev = I <id> W <key> <val> | I <id> R <key> | R <id> <code> <val> <ver> <obs>
 //	     (code = numeric RequestResultCode of request.go, 100 = refused by the API;
 //	      obs = number of updates the replica had applied when the Lookup ran)
@@ -46,7 +46,7 @@ func caseLine(name string, r *histResult) string {
 	sort.Slice(evs, func(i, j int) bool { return evs[i].stamp < evs[j].stamp })
 	var ids []string
 	for _, a := range r.log {
-		ids = append(ids, fmt.Sprint(a.id))
+		ids = append(ids, fmt.Sprintf("%d:%d:%d", a.id, a.key, a.val))
 	}
 	logs := "-"
 	if len(ids) > 0 {
@@ -159,8 +159,11 @@ func run(a vh.Args) {
 		if c.smcheck != "ok" {
 			viol = append(viol, "apply streams inconsistent: "+c.smcheck)
 		}
-		if c.alien > 0 && c.nev == len(c.events) {
-			viol = append(viol, fmt.Sprintf("%d applied entries are not operations of any client", c.alien))
+		if c.synth > 0 && c.nev == len(c.events)-c.synth {
+			viol = append(viol, fmt.Sprintf("%d applied entries are not operations of any client (fabricated)", c.synth))
+		}
+		if c.differ > 0 {
+			viol = append(viol, fmt.Sprintf("%d applied entries differ from the command the client proposed", c.differ))
 		}
 		for _, id := range c.log {
 			if o := ops[id]; o != nil && o.refused {
